@@ -443,15 +443,23 @@ def first_wiring(ctx, pid):
                 parent, agg = q.parent_agg(lib, f)
                 if parent is None or not cargs:
                     continue
-                # the pass in the parent preceding this advance: nearest recurse_regret instantiation dominating the closure creation
-                inst = None
-                for bj, tt, pp in parent.calls():
-                    if short(pp) == 'recurse_regret':
-                        ca = [a for a in tt['callee'].get('args', []) if a in ('true', 'false', 'FIRST')]
-                        cb = [b for b, si, st in parent.assigns() if st['rv']['r'] == 'agg' and st['rv']['kind'].get('path') == f.name]
-                        if ca and cb and parent.dominates(bj, cb[0]):
-                            inst = ca[0]
-                if inst is None:
+                # the pass in the parent preceding this advance: for every creation of the closure, the nearest
+                # recurse_regret instantiation dominating it
+                cbs = [b for b, si, st in parent.assigns() if st['rv']['r'] == 'agg' and st['rv']['kind'].get('path') == f.name]
+                insts = []
+                for cb in cbs:
+                    cands = []
+                    for bj, tt, pp in parent.calls():
+                        if short(pp) == 'recurse_regret':
+                            ca = [a for a in tt['callee'].get('args', []) if a in ('true', 'false', 'FIRST')]
+                            if ca and parent.dominates(bj, cb):
+                                cands.append((bj, ca[0]))
+                    near = [c for c in cands if all(parent.dominates(o[0], c[0]) for o in cands)]
+                    if near:
+                        insts.append(near[0][1])
+                if not insts:
                     continue
+                bad_i = [i for i in insts if i != cargs[0]]
+                inst = bad_i[0] if bad_i else insts[0]
                 ctx.verdict(cargs[0] == inst, rule, '%s:advance-instantiation:%s:%s' % (rule, q.top(f.name), inst), 'advance::<FIRST> uses the FIRST of the pass it closes (the off-by-one of the first player\'s average discount)', f.where(bi),
                             'pass FIRST=%s advance::<%s>' % (inst, cargs[0]), breaks='the average-strategy discount of one player is shifted by an iteration')
